@@ -76,9 +76,9 @@ def main(tier):
                 if abs(bx - by) <= 1e-9 * max(abs(bx), abs(by), 1e-300) and not (u == v and x == y):
                     continue                    # rounding-indeterminate ties are not generated (DESIGN 8)
                 sign = 0 if (u == v and x == y) else (-1 if bx < by else 1)
-                for cls in ("Scalar", "FractionScalar"):
-                    A = Scalar(cat, x, u) if cls == "Scalar" else FractionScalar(cat, value=x, unit=u)
-                    B = Scalar(cat, y, v) if cls == "Scalar" else FractionScalar(cat, value=y, unit=v)
+                for cls in ("Scalar", "FractionScalar", "Scalar vs FractionScalar", "FractionScalar vs Scalar"):
+                    A = Scalar(cat, x, u) if cls.startswith("Scalar") else FractionScalar(cat, value=x, unit=u)
+                    B = Scalar(cat, y, v) if cls.endswith(" Scalar") or cls == "Scalar" else FractionScalar(cat, value=y, unit=v)
                     res = {}
                     raised = ""
                     for name, op in OPS:
